@@ -352,6 +352,19 @@ func (lw *loopWorld) exec(f []string) {
 				o.rxDone += mm
 				lw.entered(id, fmt.Sprintf("%s n=%d data=%s", errClass(err), m, hexOrDash(b[:mm])), re)
 			} else {
+				if err != nil && o.kind == "tcp" && !o.closed && !errors.Is(err, sonicerrors.ErrCancelled) {
+					// a write that failed for good: the kernel's own count of payload bytes it has put on the wire for this
+					// connection is a lower bound for what the writes so far have moved
+					if info, e := unix.GetsockoptTCPInfo(lw.rawFd(o), unix.SOL_TCP, unix.TCP_INFO); e == nil {
+						// (bytes handed to the network for the first time: sent minus retransmitted; never less than what
+						// the peer acknowledged, which counts the SYN as one byte)
+						low := info.Bytes_sent - info.Bytes_retrans
+						if info.Bytes_acked > low+1 {
+							low = info.Bytes_acked - 1
+						}
+						fmt.Fprintf(lw.w, "? acked %d %d\n", k, low)
+					}
+				}
 				lw.entered(id, fmt.Sprintf("%s n=%d", errClass(err), m), re)
 			}
 		}
@@ -1726,6 +1739,13 @@ func loopEnum(args []string, w *bufio.Writer) {
 		emit("obj 1 "+kind, "dupfd 1", "read 1 8 op=11", "cancel 1", "pending", "peer 1 write 8", "idlepoll", "close 1", "idlepoll", "pending")
 	}
 	emit("obj 1 tcp", "dupfd 1", "read 1 8 op=11", "setdisp 32", "write 1 5 op=12", "setdisp 0", "pending", "close 1", "pending", "peer 1 write 8", "idlepoll", "idlepoll", "pending")
+	// a peer that has closed already: the first write(2) of a large WriteAll is accepted, the next one draws the error — the count
+	// reported with the error covers what was accepted (the kernel's tcpi_bytes_acked is the witness)
+	for _, a := range []string{"writeall", "write"} {
+		emit("obj 1 tcp", "peer 1 close", a+" 1 8000000 op=11", "pending", "poll", "poll", "pending")
+		emit("obj 1 tcp", "write 1 100 op=11", "peer 1 drain", "peer 1 close", a+" 1 8000000 op=12", "pending", "poll", "poll", "pending")
+		emit("obj 1 tcp", a+" 1 8000000 op=11", "pending", "peer 1 rst", "poll", "poll", "pending")
+	}
 	emit("obj 1 packet", "recvfrom 1 16 op=11", "close 1", "pending", "poll", "pending")
 	emit("obj 1 listener", "accept 1 op=11", "close 1", "pending", "poll", "pending")
 	// 5. two completions harvested by the same epoll_wait: the handler that runs first closes / cancels the other
